@@ -184,6 +184,7 @@ def check(run, repo, world):
 
     # ---- R-EDT --------------------------------------------------------------
     _check_edt(run, repo, world, fns)
+    _check_single_write(run, repo, world, fns)
     _check_examples(run, repo)
 
 
@@ -596,6 +597,85 @@ def _check_edt(run, repo, world, fns):
                        sample={"rule": "R-EDT", "entry": F.q,
                                "transmit": unparse(c)[:80],
                                "worlds": len(W.at(node))})
+
+
+def _check_single_write(run, repo, world, fns):
+    """The unit R-EDT counts as one transmission puts one frame on the wire:
+    a transmit function that writes twice on some path (a retry below the
+    level where the device-type prefix is added) sends the command a second
+    time with its own first copy in front of it, not the prefix."""
+    from ..cfg import forward
+    n = 0
+    for F in sorted(fns.values(), key=lambda f: f.q):
+        if F.name not in ("_send_raw", "send_dali_command"):
+            continue
+        wn = set()
+        for call in call_sites(F.fn):
+            if is_wire_write(call):
+                node = F.node_of(call)
+                if node is None:
+                    raise AnalysisError("write site not found in CFG of %s"
+                                        % F.q)
+                wn.add(node.id)
+        if not wn:
+            continue
+        n += 1
+
+        # a gateway without a send-twice flag of its own is written to
+        # twice for a send-twice command: writes governed by `sendtwice`
+        # (a test, a repeat count derived from it) are the one transmission
+        tw = {"sendtwice"}
+        for x in ast.walk(F.fn):
+            if isinstance(x, ast.Assign) and len(x.targets) == 1 and \
+                    isinstance(x.targets[0], ast.Name) and any(
+                        isinstance(y, ast.Attribute) and y.attr ==
+                        "sendtwice" for y in ast.walk(x.value)):
+                tw.add(x.targets[0].id)
+
+        def governed(call):
+            par = {}
+            for x in ast.walk(F.fn):
+                for ch in ast.iter_child_nodes(x):
+                    par[id(ch)] = x
+            cur = call
+            while id(cur) in par:
+                up = par[id(cur)]
+                g = up.test if isinstance(up, (ast.If, ast.While,
+                                               ast.IfExp)) else (
+                    up.iter if isinstance(up, ast.For) else None)
+                if g is not None and cur is not g and any(
+                        (isinstance(y, ast.Attribute) and y.attr in tw) or
+                        (isinstance(y, ast.Name) and y.id in tw)
+                        for y in ast.walk(g)):
+                    return True
+                cur = up
+            return False
+        site = {}
+        for call in call_sites(F.fn):
+            if is_wire_write(call):
+                site[F.node_of(call).id] = governed(call)
+
+        def tr(node, st):
+            # a second, different write site after a first one; the same
+            # site met again (a repeat loop) is not told apart from the
+            # send-twice repetition and is left alone
+            if node.id in wn and not site[node.id]:
+                if any(isinstance(f_, tuple) and f_[0] == "wrote" and
+                       f_[1] != node.id for f_ in st):
+                    return st | {"w2"}
+                return st | {("wrote", node.id)}
+            return st
+        IN = forward(F.cfg, tr, must=False)
+        twice = [nd for nd in F.cfg.reachable if "w2" in tr(
+            nd, IN.get(nd.id, frozenset()))]
+        run.ob("R-EDT", "%s#one-frame-per-transmission" % F.q, not twice,
+               "%s can write to the wire twice in one call (second write "
+               "at L%s): the repeated command is preceded by its own first "
+               "copy, not by the EnableDeviceType frame its caller sent"
+               % (F.q, twice[0].lineno if twice else "?"),
+               where(repo.mod(F.cls.mod), twice[0].ast if twice and
+                     twice[0].ast is not None else F.fn))
+    run.floor("transmit functions with a wire write", n, 3)
 
 
 def _callers_prefix(world, fns, F):
